@@ -174,6 +174,19 @@ func processRule(ruleId string, chainOffset uint8, dataFilePath string, ctxt *pr
 	updateRegex(ruleFilePath, ruleId, chainOffset, regex)
 }
 
+// isIdLine reports whether the line carries the id action of the rule. A comment that
+// mentions the id does not, and neither does the operand of an @rx operator: the text of a
+// regular expression may contain `id:<rule id>` without being the actions of a rule.
+func isIdLine(idRegex *regexp.Regexp, line []byte) bool {
+	if bytes.HasPrefix(bytes.TrimLeft(line, " \t"), []byte("#")) {
+		return false
+	}
+	if found := regex.RuleRxRegex.FindSubmatch(line); found != nil {
+		return idRegex.Match(found[1]) || idRegex.Match(found[3])
+	}
+	return idRegex.Match(line)
+}
+
 func updateRegex(filePath string, ruleId string, chainOffset uint8, newRegex string) {
 	contents, err := os.ReadFile(filePath)
 	if err != nil {
@@ -188,7 +201,7 @@ func updateRegex(filePath string, ruleId string, chainOffset uint8, newRegex str
 	foundRule := false
 	chainCount := uint8(0)
 	for index, line = range lines {
-		if !foundRule && idRegex.Match(line) {
+		if !foundRule && isIdLine(idRegex, line) {
 			foundRule = true
 			if chainOffset == 0 {
 				index--
